@@ -634,6 +634,33 @@ def check_e(ck, repo):
     ck.verdict(bx == ["self.binner_"], "C08.e", tb, f"binner = {bx}", "predict routes with the fitted binner", "transform_bins does not use the fitted binner_")
 
 
+def check_weights_kept(ck, repo):
+    """fit hands the caller's sample_weight on: it is not replaced (by None, by a rescaled copy)
+    on the way to the local models"""
+    ci = repo.cls(MOD, "PiecewiseEstimator")
+    fit = ci.methods["fit"]
+    if len(fit.named_params) < 4:
+        return
+    sw = fit.named_params[3]
+    reb = []
+    for st in own_nodes(fit.node):
+        if isinstance(st, ast.Assign) and any(isinstance(t, ast.Name) and t.id == sw for t in st.targets):
+            v = st.value
+            core = v
+            while True:
+                if isinstance(core, ast.Call) and src_of(core.func).split(".")[-1] in ("asarray", "array", "_check_sample_weight", "check_array", "column_or_1d", "ascontiguousarray") and core.args:
+                    core = core.args[0]
+                elif isinstance(core, ast.Call) and isinstance(core.func, ast.Attribute) and core.func.attr in ("astype", "copy", "ravel", "to_numpy"):
+                    core = core.func.value
+                elif isinstance(core, ast.Attribute) and core.attr == "values":
+                    core = core.value
+                else:
+                    break
+            if not (isinstance(core, ast.Name) and core.id == sw):
+                reb.append(st)
+    ck.verdict(not reb, "C08.a", fit, reb[0] if reb else f"{sw} reaches the tasks as given (conversions aside)", "every local model is trained with the caller's weights for its bucket", f"fit replaces {sw} by {src_of(reb[0].value)[:50] if reb else ''} before the local models are trained: they do not receive the caller's weights for their bucket (for a regularised model, constant weights c are not the same as no weights)")
+
+
 def run(ck):
     repo = ck.repo
     for k, v in RULES.items():
@@ -642,6 +669,7 @@ def run(ck):
     check_b(ck, repo)
     check_c(ck, repo)
     check_d(ck, repo)
+    check_weights_kept(ck, repo)
     check_e(ck, repo)
     ck.require_count("C08.a", 3, "co-index, mask definition, copy, receiver, weights")
     ck.require_count("C08.b", 9, "clones, task arguments, fallback, binner, predict dispatch table")
